@@ -83,6 +83,8 @@ def xml_flag_paths(prog, f):
 
 
 def run(prog, rep):
+    from rules import json_ownership
+    json_ownership.check(prog, rep, 'R8.12')
     rep.rule('R8.10', 'JSON LoadValue decision table over the kinds of JSON value (null, booleans, the integer classes of RapidJSON with and without an exact double, '
                       'double, string, array, object) x target kind: every number spelling loads into a floating target, integers go through the range-checked '
                       'conversion of the getter that is valid for their class, other kinds reach the mismatched-types policy', floor=10)
